@@ -65,8 +65,16 @@ def main():
             except re.error:
                 u["re"] = re.compile(re.escape(u["filter"]))
             allunits.append(u)
+    def full_name(u, fname):
+        # the name govc matches filters against: (*<import path>.T).M, (<import path>.T).M or <import path>.f
+        d = os.path.dirname(u["file"])
+        ip = "github.com/tmpim/casket" + ("/" + d if d else "")
+        m = re.match(r"^\((\*?)([A-Za-z_]\w*)\)\.(.*)$", fname)
+        if m:
+            return "(%s%s.%s).%s" % (m.group(1), ip, m.group(2), m.group(3))
+        return ip + "." + fname
     def proved_in(u, fname):
-        return bool(u["re"].search(u["pkg"] + "." + fname))
+        return bool(u["re"].search(full_name(u, fname)))
     n_assumed = n_proved = n_diff = 0
     for u in allunits:
         for fname, c in sorted(u["funcs"].items()):
